@@ -118,3 +118,71 @@ Qed.
 #[global] Arguments sem_bech32__bech32_encode : simpl never.
 #[global] Arguments bech32_encode : simpl never.
 
+
+Definition vdecoded (o : option (str * list Z * encoding)) : val :=
+  match o with
+  | None => VTuple [VNone; VNone; VNone]
+  | Some (h, d, sp) => VTuple [vstr h; vints d; venc sp]
+  end.
+
+Lemma printable_ascii bech : existsb (fun x => (x <? 33) || (126 <? x)) bech = false -> ascii bech = true.
+Proof.
+  intros H. unfold ascii. apply forallb_forall. intros x Hx.
+  assert (G : ((x <? 33) || (126 <? x)) = false).
+  { destruct ((x <? 33) || (126 <? x)) eqn:E; [|reflexivity].
+    assert (existsb (fun x => (x <? 33) || (126 <? x)) bech = true) by (apply existsb_exists; exists x; auto). congruence. }
+  lia.
+Qed.
+
+Lemma rfind_from_rfind c l i b : rfind_from [c] l i b = rfind c l i b.
+Proof.
+  revert i b; induction l as [|x r IH]; intros i b; [reflexivity|].
+  change (rfind_from [c] (x :: r) i b) with (rfind_from [c] r (i + 1) (if prefixb [c] (x :: r) then i else b)).
+  rewrite prefixb_single, IH, (Z.eqb_sym c x). reflexivity.
+Qed.
+Lemma find_from_single0 c l : find_from [c] l 0 = match index_of c l with Some i => i | None => -1 end.
+Proof. rewrite find_from_single. destruct (index_of c l); reflexivity. Qed.
+Lemma drop_last_map {A B} (f : A -> B) k l : drop_last k (map f l) = map f (drop_last k l).
+Proof. unfold drop_last. rewrite map_length, firstn_map. reflexivity. Qed.
+
+Lemma bech32_decode_sem ext fuel bech :
+  sem_bech32__bech32_decode ext fuel [vstr bech] = Val (vdecoded (bech32_decode bech)).
+Proof.
+  unfold sem_bech32__bech32_decode, call, ast_bech32__bech32_decode.
+  pystep.
+  erewrite (quant_any_map _ (fun c => VStr [c]) (fun x => (x <? 33) || (126 <? x))).
+  2:{ intros x. pystep. destruct (x <? 33); reflexivity. }
+  unfold bech32_decode.
+  destruct (existsb (fun x => (x <? 33) || (126 <? x)) bech) eqn:E1; pystep; [reflexivity|].
+  rewrite (printable_ascii _ E1). pystep.
+  change Bech32M.lower_c with Interp.lower_c. change Bech32M.upper_c with Interp.upper_c.
+  destruct (beq_bytes (map lower_c bech) bech) eqn:EL; destruct (beq_bytes (map upper_c bech) bech) eqn:EU; pystep; try reflexivity.
+  all: rewrite (printable_ascii _ E1); pystep.
+  all: rewrite !rfind_from_rfind.
+  all: set (lb := map lower_c bech); set (pos := rfind 49 lb 0 (-1)); set (len := Z.of_nat (Datatypes.length lb)).
+  all: destruct (pos <? 1) eqn:P1; pystep; [reflexivity|].
+  all: destruct (len <? pos + 7) eqn:P2; pystep; [reflexivity|].
+  all: destruct (90 <? len) eqn:P3; pystep; [reflexivity|].
+  all: rewrite !slice_from by lia; pystep.
+  all: erewrite (quant_all_map _ (fun c => VStr [c]) (fun x => memb x CHARSET))
+         by (intros x; pystep; change (find_from [x] _ 0) with (find_from [x] CHARSET 0); rewrite find_from_single_memb; destruct (memb x CHARSET); reflexivity).
+  all: pystep.
+  all: destruct (forallb (fun x => memb x CHARSET) (skipn (Z.to_nat (pos + 1)) lb)) eqn:P4; pystep; [|reflexivity].
+  all: rewrite !slice_to by lia; pystep.
+  all: rewrite !slice_from by lia.
+  all: set (tail := skipn (Z.to_nat (pos + 1)) lb) in *.
+  all: set (ix := fun c => match index_of c CHARSET with Some i => i | None => -1 end).
+  all: erewrite (comp_map_map _ (fun c => VStr [c]) (fun c => VInt (ix c)))
+         by (intros x; pystep; change (find_from [x] _ 0) with (find_from [x] CHARSET 0); rewrite find_from_single0; reflexivity).
+  all: pystep.
+  all: rewrite <- (map_map ix VInt).
+  all: change (VList (map VInt (map ix tail))) with (vints (map ix tail)).
+  all: change (VStr (firstn (Z.to_nat pos) lb)) with (vstr (firstn (Z.to_nat pos) lb)).
+  all: rewrite verify_checksum_sem.
+  all: destruct (bech32_verify_checksum (firstn (Z.to_nat pos) lb) (map ix tail)) as [sp|] eqn:P5; pystep; [|reflexivity].
+  all: destruct sp; pystep.
+  all: change (-6) with (- (6)); rewrite slice_to_neg by lia; change (Z.to_nat 6) with 6%nat.
+  all: rewrite drop_last_map; reflexivity.
+Qed.
+#[global] Arguments sem_bech32__bech32_decode : simpl never.
+#[global] Arguments bech32_decode : simpl never.
